@@ -4,6 +4,7 @@ import (
 	"encoding/json"
 	"errors"
 	"fmt"
+	"io"
 	"net/http"
 	"strings"
 
@@ -162,6 +163,12 @@ func c15Run(cs c15Case) (obs c15Obs, cw *countingWriter, panicked interface{}) {
 			err = resp.WriteErrorString(cs.Status, "reason text")
 		case "WriteServiceError":
 			err = resp.WriteServiceError(cs.Status, restful.NewError(cs.Status, "service error"))
+		case "NestedDispatch":
+			// the route function hands its own Response to a nested dispatch on the same container;
+			// the inner route sets the status and writes through it
+			inner := h.Req{Method: "GET", Segs: []string{"b", "inner"}}
+			c.Dispatch(resp, inner.HTTP())
+			returnsErr = false
 		}
 		if cs.First != "" {
 			if returnsErr {
@@ -181,6 +188,10 @@ func c15Run(cs c15Case) (obs c15Obs, cw *countingWriter, panicked interface{}) {
 				obs.CallErrs[len(obs.CallErrs)-1] += fmt.Sprintf(" (Write returned n=%d, the writer accepted %d)", n, cw.accepted-acc)
 			}
 		}
+	}))
+	ws.Route(ws.GET("/inner").To(func(req *restful.Request, resp *restful.Response) {
+		resp.WriteHeader(cs.Status)
+		io.WriteString(resp, "inner-body;")
 	}))
 	c.Add(ws)
 	q := h.Req{Method: "GET", Segs: []string{"b", "r"}, Hdr: [][2]string{{"Accept", cs.Accept}}}
@@ -393,7 +404,7 @@ func c15Cases(tier string) []c15Case {
 	statuses := []int{200, 201, 404}
 	values := []string{"nil", "small", "big"}
 	for _, s := range statuses {
-		firsts = append(firsts, c15Case{First: "WriteHeader", Status: s}, c15Case{First: "HandleWithFilter", Status: s})
+		firsts = append(firsts, c15Case{First: "WriteHeader", Status: s}, c15Case{First: "HandleWithFilter", Status: s}, c15Case{First: "NestedDispatch", Status: s})
 		firsts = append(firsts, c15Case{First: "WriteError", Status: s}, c15Case{First: "WriteError", Status: s, ErrNil: true}, c15Case{First: "WriteErrorString", Status: s}, c15Case{First: "WriteServiceError", Status: s})
 		for _, v := range values {
 			firsts = append(firsts, c15Case{First: "WriteHeaderAndEntity", Status: s, Value: v}, c15Case{First: "WriteHeaderAndJson", Status: s, Value: v}, c15Case{First: "WriteHeaderAndXml", Status: s, Value: v})
@@ -423,7 +434,7 @@ func c15Cases(tier string) []c15Case {
 					}
 					coded := base
 					coded.Coding = "gzip"
-					if f.First != "HandleWithFilter" {
+					if f.First != "HandleWithFilter" && f.First != "NestedDispatch" {
 						out = append(out, coded)
 						if tier == "thorough" {
 							coded.Coding = "deflate"
